@@ -735,11 +735,13 @@ class EvalFunc:
         for i, func_def_arg in enumerate(self.func_def.args.posonlyargs + self.func_def.args.args):
             var_name = func_def_arg.arg
             val = None
+            # the name of a positional-only parameter is an ordinary key for **kwargs
+            kw_for_param = var_name in kwargs and not (i < self.num_posonly_arg and self.func_def.args.kwarg)
             if i < len(args):
                 val = args[i]
-                if var_name in kwargs:
+                if kw_for_param:
                     raise TypeError(f"{self.name}() got multiple values for argument '{var_name}'")
-            elif var_name in kwargs:
+            elif kw_for_param:
                 if i < self.num_posonly_arg:
                     bad_kwargs.append(var_name)
                 val = kwargs[var_name]
